@@ -64,6 +64,14 @@ impl Check for C23 {
     fn required_counters(&self) -> Vec<&'static str> {
         vec!["lane_tree", "lane_tree-compound", "lane_search", "lane_fd", "lane_fd-structured", "lane_clpz", "lane_diseq-fd", "lane_for-project", "lane_commit", "answers_formatted"]
     }
+    fn miri_lane(&self, tier: Tier) -> Option<(Vec<(&'static str, u64, u64)>, bool)> {
+        // thorough only: the same run_case code interpreted by Miri (Rc::make_mut / copy-on-write paths)
+        if tier == Tier::Thorough {
+            Some((vec![("mixed", 0, 36)], false))
+        } else {
+            None
+        }
+    }
     fn run_case(&self, gen: &str, seed: u64, index: u64, _tier: Tier) -> CaseOut {
         let mut out = CaseOut::default();
         let mut rng = Rng::for_case(seed, gen, index);
